@@ -397,6 +397,27 @@ fn fixed_nested_cases(rep: &mut Report) {
         if std::env::var("YV_DEBUG").is_ok() { eprintln!("fixed A: before {} after {}", before, after); }
         if before.contains("i63") && !after.contains("i63") { rep.fail(json!({"property": "C12", "class": "undo-erases-an-entry-written-by-another-origin", "input": "fixed: map re-created by undo, foreign write into it, tracked undo of an older removal of the same key", "before": before, "after": after, "case": {"stream": 124, "index": 1}})); }
     }
+    // (D) one step overwrites an entry of a nested map and then removes the nested map; undo re-creates the map and the OLD entry: it
+    // has to be back here and on a replica that receives the whole state (a copy linked to an entry of the old, deleted map is filed
+    // under that map by every other replica) - the same below an array element
+    for below_array in [false, true] {
+        let (d, m, mut mgr) = mk();
+        let inner = { let mut t = d.transact_mut_with("me");
+            if below_array { let a = m.insert(&mut t, "k0", ArrayPrelim::default()); a.insert(&mut t, 0, 7); a.insert(&mut t, 1, MapPrelim::default()) } else { m.insert(&mut t, "k1", MapPrelim::default()) } };
+        { let mut t = d.transact_mut_with("me"); inner.insert(&mut t, "k2", 1); inner.insert(&mut t, "k3", 5); } mgr.reset();
+        let before = show(&d);
+        { let mut t = d.transact_mut_with("me"); inner.insert(&mut t, "k2", 2); }
+        { let mut t = d.transact_mut_with("me"); if below_array { m.remove(&mut t, "k0"); } else { m.remove(&mut t, "k1"); } } mgr.reset();
+        mgr.undo_blocking();
+        let after = show(&d);
+        let d2 = mk_doc(2, DocCfg::default());
+        { use yrs::ReadTxn; let u = d.transact().encode_state_as_update_v1(&yrs::StateVector::default()); if let Ok(u) = Update::decode_v1(&u) { let _ = d2.transact_mut().apply_update(u); } }
+        let remote = show(&d2);
+        rep.count("c12_fixed_nested_inputs");
+        let input = format!("fixed: one step overwrites an entry of a nested map and removes the map{}, undo", if below_array { " (below an array that is removed)" } else { "" });
+        if after != before { rep.fail(json!({"property": "C12", "class": "undo-does-not-restore-the-content-before-the-step", "input": input, "before": before, "after": after})); }
+        else if remote != after { rep.fail(json!({"property": "C12", "class": "replicas-diverge-after-undo-redo", "input": input, "a": after, "b": remote})); }
+    }
 }
 
 pub fn cases(tier: &str) -> u64 { if tier == "thorough" { 40000 } else { 15000 } }
